@@ -21,7 +21,7 @@ var coseAlgID = map[string]int64{"ES256": refcose.AlgES256, "ES384": refcose.Alg
 	"EdDSA": refcose.AlgEdDSA, "PS256": refcose.AlgPS256, "PS384": refcose.AlgPS384, "PS512": refcose.AlgPS512}
 
 func runC03(c *mon.Ctx) {
-	c.Rule("(a) valid claims-sets of both profiles and of a registered profile-2 extension (all optional subsets, hash sizes, 1-4 components, P1 flag or list, with/without explicit P1 profile; built directly / by setters / by decoding) x 7 algorithms x fresh keys: SetClaims + ValidateAndSign (and Sign) must succeed; the token read by the independent COSE reader must be tag 18 / 4-array / [bstr, map, bstr, non-empty bstr], its payload byte-identical to ValidateAndEncodeClaimsToCBOR(claims), its protected header must carry the signer's algorithm under label 1; the independent verifier (Go stdlib crypto over a Sig_structure rebuilt by the harness) and Evidence.Verify on the signing Evidence must accept it; DecodeAndValidateEvidenceFromCOSE must succeed, return the same implementation type and identical Validate/getter results (also equal to the reference model's expectation), verify under the signer's key, and hold (hook H2) exactly the token's protected/payload/signature bytes; (b) invalid claims-sets signed with the non-validating Sign: the claims of the decoded Evidence must equal DecodeClaimsFromCBOR(payload read by the independent reader). distinct_nontrivial = distinct (algorithm, profile, route, optional-subset, nonce size, component count) signatures")
+	c.Rule("(a) valid claims-sets of both profiles and of a registered profile-2 extension (all optional subsets, hash sizes, 1-4 components, P1 flag or list, with/without explicit P1 profile; built directly / by setters / by decoding) x 7 algorithms x fresh keys: SetClaims + ValidateAndSign (and Sign) must succeed; the token read by the independent COSE reader must be tag 18 / 4-array / [bstr, map, bstr, non-empty bstr], its payload byte-identical to ValidateAndEncodeClaimsToCBOR(claims), its protected header must carry the signer's algorithm under label 1; the independent verifier (Go stdlib crypto over a Sig_structure rebuilt by the harness) and Evidence.Verify on the signing Evidence must accept it; DecodeAndValidateEvidenceFromCOSE must succeed, return the same implementation type and identical Validate/getter results (also equal to the reference model's expectation), verify under the signer's key, and hold (hook H2) exactly the token's protected/payload/signature bytes; for every third case the attached claims are then edited in place (new nonce) and the SAME Evidence signs again: the second token's payload must be the encoding of the claims as they are now, verify, decode, and carry the new nonce; (b) invalid claims-sets signed with the non-validating Sign: the claims of the decoded Evidence must equal DecodeClaimsFromCBOR(payload read by the independent reader). distinct_nontrivial = distinct (algorithm, profile, route, optional-subset, nonce size, component count) signatures")
 	if err := extprof.Register(extprof.ExtP2Name); err != nil {
 		c.Violation("harness/register", err.Error(), nil)
 		return
@@ -143,6 +143,47 @@ func runC03(c *mon.Ctx) {
 				bad("claims-not-from-payload/"+obsKey(&gh, &gy), "claims exposed by the decoded Evidence are not the decoding of the payload it holds: "+df, d)
 				return
 			}
+			// sign again on the SAME Evidence after the attached claims were
+			// edited in place (new challenge): the new token must carry the
+			// claims as they are now
+			if i%3 == 0 {
+				newNonce := g.Bytes(g.HashLen())
+				if err := x.SetNonce(newNonce); err != nil {
+					bad("setnonce-failed", "SetNonce with a valid nonce failed: "+err.Error(), d)
+					return
+				}
+				var tok2 []byte
+				if validating {
+					tok2, err = st.ev.ValidateAndSign(k.Signer)
+				} else {
+					tok2, err = st.ev.Sign(k.Signer)
+				}
+				if err != nil {
+					bad("second-sign-failed", "signing again on the same Evidence failed: "+err.Error(), d)
+					return
+				}
+				env2, perr := refcose.Parse(tok2)
+				want2, _ := psatoken.ValidateAndEncodeClaimsToCBOR(x)
+				if perr != nil || !bytes.Equal(env2.Payload, want2) {
+					d["token2_hex"] = mon.Hex(tok2)
+					bad("second-sign-stale-payload", "after editing the attached claims in place, signing again produced a token whose payload is not the encoding of the claims as they are now", d)
+					return
+				}
+				if env2.Verify(k.Pub) != nil || st.ev.Verify(k.Pub) != nil {
+					bad("second-sign-not-verifiable", "the second token does not verify", d)
+					return
+				}
+				d2, err := psatoken.DecodeAndValidateEvidenceFromCOSE(tok2)
+				if err != nil {
+					bad("second-sign-decode-failed", "the second token does not decode: "+err.Error(), d)
+					return
+				}
+				if n2, err := d2.Claims.GetNonce(); err != nil || !bytes.Equal(n2, newNonce) {
+					bad("second-sign-stale-claims", "the second token does not carry the new nonce", d)
+					return
+				}
+				c.Count("second-signs")
+			}
 			c.Count("round-trips")
 			c.Count("profile:" + a.Canon)
 			c.Count("route:" + vc.route)
@@ -168,6 +209,7 @@ func runC03(c *mon.Ctx) {
 	c.Floor("profile:"+model.P2Name, 100)
 	c.Floor("profile:"+extprof.ExtP2Name, 30)
 	c.Floor("invalid-signed-decoded", 50)
+	c.Floor("second-signs", 300)
 }
 
 func profName(a *model.Claims) string {
